@@ -359,13 +359,15 @@ fn format_assign_stat_trivia_aware(
         .is_some_and(|layout| layout.has_inline_comment);
 
     if has_inline_comment {
-        return vec![ir::indent(render_trivia_aware_split_sequence_tail(
+        let mut docs = vec![ir::indent(render_trivia_aware_split_sequence_tail(
             plan,
             Vec::new(),
             &lhs_entries,
             assign_op.as_ref(),
             &rhs_entries,
         ))];
+        append_trailing_statement_suffix(ctx, plan, &mut docs, stat.syntax());
+        return docs;
     }
     let mut docs = Vec::new();
     render_sequence(&mut docs, &lhs_entries, false);
@@ -424,6 +426,7 @@ fn format_return_stat_trivia_aware(
             token_right_spacing_docs(plan, return_token.as_ref()),
             &entries,
         )));
+        append_trailing_statement_suffix(ctx, plan, &mut docs, stat.syntax());
         return docs;
     }
 
